@@ -15,12 +15,46 @@ def C01_data_order(case, params):
     r = _diffs(case)
     if r is None or r["kind"] != "denotation-differs":
         return False
+    import spec
+    c = case["case"]
     for d in r["diffs"]:
         if d[0] not in ("order", "comment-order"):
             return False
-    import spec
-    c = case["case"]
+        if d[0] == "comment-order" and str(d[1]) == "1":
+            return False          # nothing is regrouped in the surface block
+        if d[0] == "comment-order" and str(d[1]) == "0" and not _cell_with_split_imp(c):
+            return False          # comments of the cell block only move with regrouped IMP parameters
+    if not _data_block_has_feature(c) and not _cell_with_split_imp(c):
+        return False
     return _order_only_mt_imp(c)
+
+
+def _cell_with_split_imp(c):
+    """some cell card of the INPUT has IMP parameters of several particles that are not adjacent"""
+    import spec
+    blocks = spec.split_file(c["text"], c["width"])["blocks"]
+    for card in (blocks[0] if blocks else []):
+        toks = spec.tokens(card.text)
+        keys = [t for t in toks if re.match(r"^\*?[A-Z]", t) and spec.read_number(t) is None and not spec._SC.match(t)]
+        idx = [i for i, k in enumerate(keys) if k.startswith("IMP:")]
+        if len(idx) >= 2 and idx[-1] - idx[0] != len(idx) - 1:
+            return True
+    return False
+
+
+def _data_block_has_feature(c):
+    """the INPUT's data block has an MT card that does not directly follow its M card, or IMP cards that are not adjacent"""
+    import spec
+    blocks = spec.split_file(c["text"], c["width"])["blocks"]
+    if len(blocks) < 3:
+        return False
+    names = [spec.tokens(card.text)[0] for card in blocks[2] if spec.tokens(card.text)]
+    for i, nme in enumerate(names):
+        m = re.match(r"^MT(\d+)$", nme)
+        if m and (i == 0 or names[i - 1] != "M" + m.group(1)):
+            return True
+    imp = [i for i, nme in enumerate(names) if re.match(r"^\*?IMP:", nme)]
+    return len(imp) >= 2 and imp[-1] - imp[0] != len(imp) - 1
 
 
 def _order_only_mt_imp(c):
